@@ -41,11 +41,16 @@ def tile(leaves, ref_fields, allow_uncovered=()):
     problems = []
     covered = {i: set() for i in range(len(ref_fields))}
     last_end = None
+    # the X pulse position of a 13-bit identity code (7th bit) carries no information: a decoder need not look at it
+    dont_care = {rs + 6 for n_, rs, re_ in ref_fields if n_ == "ID" and re_ - rs == 13}
     for label, atoms in leaves:
         if not atoms:
             continue
         a = sorted(atoms)
         s, e = a[0], a[-1] + 1
+        if len(a) != e - s and dont_care:
+            a = sorted(set(a) | {b for b in dont_care if s <= b < e})
+            atoms = frozenset(a)
         if len(a) != e - s:
             problems.append("%s reads non-contiguous bits %s" % (label, rng_str(atoms)))
             continue
@@ -68,7 +73,7 @@ def tile(leaves, ref_fields, allow_uncovered=()):
         last_end = e
         covered[idx] |= set(a)
     for i, (n, rs, re_) in enumerate(ref_fields):
-        miss = set(range(rs, re_)) - covered[i]
+        miss = set(range(rs, re_)) - covered[i] - dont_care
         if miss and n not in allow_uncovered:
             problems.append("reference field %s f[%d..%d) is not (fully) decoded: missing %s" % (n, rs, re_, rng_str(miss)))
     return problems
